@@ -1,4 +1,90 @@
-(* C04 — placeholder while the pipeline is brought up; replaced by the real statements. *)
-From MptV Require Import Base.Mem C04.ArrayModel C04.ArraySpec.
-Example C04_smoke : alloc_size 0 = 64.
-Proof. reflexivity. Qed.
+(* C04 — Copy-on-write arrays behave as independent values.
+   Only statements (closed by [exact]), non-vacuity examples and Print Assumptions.
+
+   Reading guide.  [state] = heap of reference-counted buffers (header fields ref,
+   immutable, no-copy, element type, size, used + [size] data bytes) and a list of
+   handles (array = optional buffer id; slice = array + window).  [step] transcribes
+   mptcore/array/*.c (C04/ArrayModel.v).  [abs st] is what every handle READS: per
+   handle its kind and [None] (no buffer) or [Some (element type, bytes)].  [sstep]
+   (C04/ArraySpec.v) is the same operation on these plain values: it touches only
+   the target's value and knows nothing about buffers or sharing.  [inv] is the heap
+   invariant: every live buffer has [size] data bytes, used <= size, used a multiple
+   of the element size, ref >= 1 and ref = number of handles on it; freed or unknown
+   ids have no handle.  [hint_of] hands the specification the few mechanism facts
+   the interface leaves open (see the head of ArraySpec.v). *)
+From MptV Require Import Base.Mem C04.ArrayModel C04.ArraySpec C04.ArrayHeap C04.ArrayBuf C04.ArrayOps
+  C04.ArrayRefine.
+
+(* One operation through one handle, any state, any number of handles, any sharing
+   and flags: the model does not fault (no access outside a buffer), the invariant is
+   kept, the values of ALL handles afterwards are exactly the specification's: the
+   target holds the result of the vector operation, nothing else changed. *)
+Theorem C04_cow_step :
+  forall st o, inv st -> covered_op o = true ->
+    let '(st', out) := step st o in
+    out <> OFault /\ inv st' /\ sstep (abs st) o (hint_of st o out) = (abs st', vis out).
+Proof. exact cow_step. Qed.
+
+(* Every OTHER handle reads what it read before. *)
+Theorem C04_others_unchanged :
+  forall st o y, inv st -> covered_op o = true -> y <> target o ->
+    view (fst (step st o)) y = view st y.
+Proof. exact cow_others. Qed.
+
+(* Histories of any length over any number of handles: the sequence of all handle
+   values and outcomes equals the run on plain values; no step faults; the invariant
+   holds throughout. *)
+Theorem C04_cow_histories :
+  forall ops st, inv st -> forallb covered_op ops = true ->
+    run_abs st ops = srun st (abs st) ops /\
+    Forall (fun r => snd r <> OFault /\ inv (fst r)) (run st ops).
+Proof. exact cow_histories. Qed.
+
+(* A refused (or not applied) operation changes no value. *)
+Theorem C04_refused_unchanged :
+  forall st o, inv st -> covered_op o = true ->
+    snd (step st o) = ORefused \/ snd (step st o) = OGuard -> abs (fst (step st o)) = abs st.
+Proof. exact refused_unchanged. Qed.
+
+(* No model access leaves the [size] bytes of a buffer (every access is a checked
+   rd/wr/mv; outside = Fault). *)
+Theorem C04_model_no_fault :
+  forall st o, inv st -> covered_op o = true -> snd (step st o) <> OFault.
+Proof. exact model_no_fault. Qed.
+
+(* The reference count of a buffer is the number of handles on it, in every state
+   reachable from the empty one. *)
+Theorem C04_ref_inv :
+  forall ops n m, forallb covered_op ops = true ->
+    Forall (fun r => forall i b, hget (sheap (fst r)) i = Some b -> bref b = count_refs (shnd (fst r)) i)
+           (run (init n m) ops).
+Proof. exact ref_inv. Qed.
+
+(* ---- non-vacuity *)
+Example C04_init_inv : inv (init 4 2).
+Proof. exact (init_inv 4 2). Qed.
+
+(* a shared buffer written through one handle: the other keeps its bytes *)
+Example C04_example_shared_append :
+  map (fun r => map (fun v => svec (snd v)) (abs (fst r)))
+      (run (init 2 0) [OAppend 0 [1;2;3]%N; OClone 1 (Some 0); OAppend 0 [4]%N; OSet 1 1 false 0 [9]%N;
+                       OBufCut 0 1 2])
+  = [ [[1;2;3]; []]; [[1;2;3]; [1;2;3]]; [[1;2;3;4]; [1;2;3]]; [[1;2;3;4]; [1;2;3]]; [[1;4]; [1;2;3]] ]%N.
+Proof. vm_compute. reflexivity. Qed.
+
+Example C04_example_sharing :
+  map (fun r => map hbuf (shnd (fst r)))
+      (run (init 2 0) [OAppend 0 [1;2;3]%N; OClone 1 (Some 0); OAppend 0 [4]%N])
+  = [ [Some 0; None]; [Some 0; Some 0]; [Some 1; Some 0] ].
+Proof. vm_compute. reflexivity. Qed.
+
+Example C04_example_refusal :
+  snd (step (fst (step (init 1 0) (OAppend 0 [1;2;3]%N))) (OBufCut 0 4 0)) = ORefused.
+Proof. vm_compute. reflexivity. Qed.
+
+Print Assumptions C04_cow_step.
+Print Assumptions C04_others_unchanged.
+Print Assumptions C04_cow_histories.
+Print Assumptions C04_refused_unchanged.
+Print Assumptions C04_model_no_fault.
+Print Assumptions C04_ref_inv.
